@@ -727,10 +727,12 @@ def run_instance_chains(_):
 # ---- how far a binder's scope extends: the whole unparenthesised body, whatever operators it is built from ------------------------
 EXTENT_BODIES = {
     "sum": ["v", "v + v", "w > 0 ? v : 0", "w > 0 ? 0 : v", "v > 0 ? v : v + 1", "w > 0 || v > 0 ? v : 1", "w > 0 ? v : w > 1 ? v + 1 : v + 2",
-            "v * 2 + (w > 0 ? v : 3)", "w > 0 && v > 0 ? 1 : v", "- v", "v >? w", "v + (sum (u : int[0,1]) v + u)", "v + sum (u : int[0,1]) u + v"],
+            "v * 2 + (w > 0 ? v : 3)", "w > 0 && v > 0 ? 1 : v", "- v", "v >? w", "v + (sum (u : int[0,1]) v + u)", "v + sum (u : int[0,1]) u + v",
+            "v + sum (u : int[0,1]) sum (t : int[0,1]) u + t + v", "sum (u : int[0,1]) (sum (t : int[0,1]) t + v) + u + v"],
     "forall": ["v > 0", "w > 0 || v > 0", "w > 0 && v > 0", "w > 0 imply v > 0", "v > 0 imply w > 0 || v > 1", "w > 0 ? v > 0 : v > 1",
                "! (w > 0) ? v > 0 : true", "w > 0 or v > 0", "w > 0 and v > 0", "w > 0 and v > 0 or v > 1", "not (v > 0)", "forall (u : int[0,1]) v > u",
-               "w > 0 ? v > 0 : w > 1 ? v > 2 : v > 3", "exists (u : int[0,1]) u > 0 ? v > 0 : v > 1", "v > 0 == (w > 0)", "w > 0 != v > 0"],
+               "w > 0 ? v > 0 : w > 1 ? v > 2 : v > 3", "exists (u : int[0,1]) u > 0 ? v > 0 : v > 1", "v > 0 == (w > 0)", "w > 0 != v > 0",
+               "forall (u : int[0,1]) forall (t : int[0,1]) v > u + t", "exists (u : int[0,1]) (forall (t : int[0,1]) t + v > 0) && u < v"],
 }
 EXTENT_BODIES["exists"] = EXTENT_BODIES["forall"]
 
